@@ -6,7 +6,9 @@ import (
 	"go/token"
 	"go/types"
 	"math/big"
+	"os"
 	"strings"
+	"time"
 
 	"golang.org/x/tools/go/ssa"
 )
@@ -37,6 +39,9 @@ func (e *Engine) finish(s *State) {
 		k = k[:i]
 	}
 	e.Stats["path:"+k]++
+	if e.Verbose && k != "done" && k != "infeasible" && k != "assume-false" {
+		e.Stats["status "+s.Status]++
+	}
 	switch k {
 	case "unsupported", "unwind", "steps":
 		e.incon(s.Status)
@@ -60,6 +65,14 @@ func (e *Engine) explore(init []*State, stop *stopCond, budget *int, depth int) 
 	for len(work) > 0 {
 		if e.MaxFind > 0 && len(e.Findings) >= e.MaxFind {
 			return res
+		}
+		if !e.Deadline.IsZero() && time.Now().After(e.Deadline) {
+			e.incon(fmt.Sprintf("time budget exhausted with %d states still queued (explored %d paths)", len(work), e.Paths))
+			return res
+		}
+		if e.Verbose && time.Since(e.lastLog) > 10*time.Second {
+			e.lastLog = time.Now()
+			fmt.Fprintf(os.Stderr, "[progress] paths=%d queued=%d branches=%d queries=%d solver=%.1fs findings=%d\n", e.Paths, len(work), e.Branches, e.Solver.Queries, e.Solver.Time.Seconds(), len(e.Findings))
 		}
 		s := work[len(work)-1]
 		work = work[:len(work)-1]
@@ -171,11 +184,26 @@ func (e *Engine) doIf(s *State, f *Frame, x *ssa.If, budget *int, depth int) *St
 		return s
 	}
 	e.Branches++
+	if e.Verbose {
+		e.BranchSites[e.instrPos(s, x)+" "+f.Fn.Name()]++
+	}
 	rt, rf := e.Solver.Check2(s.PC, c, Not(c))
 	if rt == "unknown" || rf == "unknown" {
 		e.Stats["branch-unknown"]++
 	}
 	ft, ff := rt != "unsat", rf != "unsat"
+	if ft != ff && s.TripBound > 0 {
+		// the solver forces this branch: count forced iterations at loop tests, so that a loop
+		// whose trip count is out of proportion to the input is reported rather than run
+		if ji := e.joinOf(x.Block()); !ji.ok {
+			f.Visits[-1-f.Block.Index]++
+			if f.Visits[-1-f.Block.Index] > s.TripBound {
+				e.violate(s, "unwind", fmt.Sprintf("loop forced to run more than %d iterations", s.TripBound), nil, x)
+				s.Status = "unwind: trip bound"
+				return s
+			}
+		}
+	}
 	switch {
 	case ft && !ff:
 		e.jump(s, f, tb)
@@ -192,6 +220,11 @@ func (e *Engine) doIf(s *State, f *Frame, x *ssa.If, budget *int, depth int) *St
 	ji := e.joinOf(x.Block())
 	if !ji.ok {
 		f.Visits[f.Block.Index]++
+	}
+	if f.Visits[f.Block.Index] > s.Unwind && s.UnwindCut {
+		e.Stats["paths-cut-at-unwinding-bound"]++
+		s.Status = "unwind-cut"
+		return s
 	}
 	if f.Visits[f.Block.Index] > s.Unwind {
 		s.Status = fmt.Sprintf("unwind: bound %d exceeded at %s in %s", s.Unwind, e.instrPos(s, x), f.Fn.String())
@@ -507,7 +540,11 @@ func (e *Engine) panicIf(s *State, cond *Term, msg string, in ssa.Instruction) b
 	}
 	nc := Not(cond)
 	if cond == True || !e.feasible(s, nc) {
-		s.Status = "panic: " + msg
+		if r == "unsat" {
+			s.Status = "infeasible" // neither side satisfiable: the path condition itself is unsat
+		} else {
+			s.Status = "panic: " + msg
+		}
 		return false
 	}
 	e.assume(s, nc)
@@ -1120,7 +1157,7 @@ func (e *Engine) strEq(a, b Value) *Term {
 	}
 	r := True
 	for i := range ca {
-		r = And(r, Eq(ca[i], cb[i]))
+		r = And(r, cellEq(ca[i], cb[i]))
 	}
 	return r
 }
@@ -1340,9 +1377,33 @@ func (e *Engine) sliceElems(s *State, sl SliceV) []Value {
 	}
 	n, ok := cint(sl.Len)
 	if !ok {
-		unsupp("operation needs a concrete slice length")
+		n, ok = e.uniqueValue(s, sl.Len)
+		if !ok {
+			unsupp("operation needs a concrete slice length")
+		}
 	}
 	return e.sliceElemsN(s, sl, n)
+}
+
+// uniqueValue returns the single value t can take on this path, if there is exactly one.
+func (e *Engine) uniqueValue(s *State, t *Term) (int, bool) {
+	if c, ok := cint(t); ok {
+		return c, true
+	}
+	m, ok := e.Solver.Model(s.PC, nil, nil, nil, t)
+	if !ok {
+		return 0, false
+	}
+	u, ok := litToUint(m[fmt.Sprintf("eval:%d", t.ID)])
+	if !ok {
+		return 0, false
+	}
+	c := BVUint(u, t.Sort.Width)
+	if e.Solver.Check(s.PC, Not(Eq(t, c))) != "unsat" {
+		return 0, false
+	}
+	v, _ := cint(c)
+	return v, true
 }
 
 func (e *Engine) sliceElemsN(s *State, sl SliceV, n int) []Value {
